@@ -231,6 +231,9 @@ func genFloats(c *genCtx) error {
 			emit("-" + s)
 		}
 	}
+	for _, d := range lenientDocs() {
+		emit(string(d))
+	}
 	// 0. one witness literal per abstract class of the scanner model (MC_FloatScan, emitted by TLC)
 	if c.statesPath != "" {
 		lits, err := loadFloatLits(c.statesPath)
